@@ -3,7 +3,7 @@ package main
 func init() {
 	register(&Spec{
 		ID:   "C07",
-		Pkgs: []string{"rules"}, InitPkgs: []string{"rules"},
+		Pkgs: []string{"rules"}, InitPkgs: []string{"filterutil", "rules"},
 		Jobs: func(tier string) []Job {
 			return []Job{
 				{Pkg: "rules", Func: "verifC07Pair"},
